@@ -94,6 +94,17 @@ check(
     "DESIGN.md §4 C13",
 )
 
+check(
+    "C11", "exploration",
+    "Hypothesis-generated value types (Literal of 1-5 mixed values, tuple/list/Sequence/Collection/Mapping/dict[...], "
+    "Regexp, StartsWith, EndsWith, HasKey, & and |) with companion sets that steer the generated dispatcher onto its "
+    "if-chain, table and counting paths; isinstance is compared with a hand-written documented meaning and dispatch "
+    "with isinstance, for every corpus value. Sampled.",
+    "Trusts vlib/spec.accepts for the documented meanings; equal values of a foreign type are unspecified.",
+    "property-based differential testing (dispatch vs isinstance vs documented meaning), code-path steering",
+    "DESIGN.md §4 C11",
+)
+
 ALL = [f"C{i:02d}" for i in range(1, 21)]
 REASON_PENDING = "check not built yet in this revision of /verif (work in progress; see DESIGN.md §8)"
 
